@@ -194,6 +194,18 @@ let handle want_type fn table =
         | _ -> raise (Parse_error "param")) params in
     let fd = { f_params = List.map (fun (x, a) -> (var x, a)) ps; f_body = ex body } in
     let ta = Array.of_list tnames in
+    if want_type = 2 || want_type = 3 then begin
+      (* the signature obtained with the transcription of fc's own resolver (Core/Resolver.v) *)
+      let names i = let i = int_of_nat i in explode (if i < Array.length ta then ta.(i) else "?") in
+      match infer_fun_resolver later_names (if want_type = 3 then enum_rev else enum_id) d res_fuel fd with
+      | RInferred (k, ptys, rty, ign) ->
+        (if ign then "IGNORED-CLASH " else "") ^
+        implode (sig_to_go names (explode (str_of name)) (List.map (fun (x, _) -> explode x) ps) k ptys rty)
+      | RPanicked -> "PANIC"
+      | RCyclic -> "CYCLE"
+      | ROutOfFuel -> "FUEL"
+      | RNoConstraints -> "ILLTYPED"
+    end else
     let amb = infer_ambiguous d big_fuel fd in
     let opn = infer_open_named d big_fuel fd in
     (match infer_fun d big_fuel fd with
